@@ -228,9 +228,14 @@ def _events(args):
         # must not be able to alter the expectation with them)
         want_attrs = {}
         for g in coll.genes:
-            want_attrs[str(g.guid)] = _lower_expected(g.export_qualifiers())
+            # from the raw qualifier dictionaries (not from the library's export_qualifiers): a gene row carries the
+            # gene's qualifiers, a transcript row its own merged key-wise with its gene's (documented)
+            want_attrs[str(g.guid)] = _lower_expected(g.qualifiers)
             for t in g.transcripts:
-                want_attrs[str(t.guid)] = _lower_expected(t.export_qualifiers(g.export_qualifiers()))
+                merged_q = {k: set(v) for k, v in g.qualifiers.items()}
+                for k, v in t.qualifiers.items():
+                    merged_q.setdefault(k, set()).update(v)
+                want_attrs[str(t.guid)] = _lower_expected(merged_q)
         src_before = _proj_quals(coll)
         try:
             collection_to_gff3([coll], buf, add_sequences=add_seq, chromosome_relative_coordinates=not chunk_mode)
